@@ -344,7 +344,7 @@ impl Cnf {
                     .trim()
                     .parse()
                     .unwrap_or_else(|_| panic!("failed to parse literal {}", lit));
-                let neg = parsed <= 0;
+                let neg = parsed < 0;
                 c.push(Literal::new(
                     VarLabel::new_usize(i64::abs(parsed) as usize),
                     !neg,
